@@ -485,6 +485,8 @@ class ExprMixin:
             self.may_raise("IndexError", z3.And(idx.t >= -ln, idx.t < ln), node, "str index")
             i = z3.If(idx.t < 0, idx.t + ln, idx.t)
             return SV(TStr, z3.SubString(base.t, i, 1))
+        if isinstance(ty, TOpaque) and f"{ty._n}.__getitem__" in self.reg.contracts and not self.spec_mode:
+            return self.call_contract_values(self.reg.contracts[f"{ty._n}.__getitem__"], base, [idx], node)
         if isinstance(ty, TUnion):
             # subscript requires a tuple/list alternative
             for i, a in enumerate(ty.alts):
@@ -914,6 +916,8 @@ class ExprMixin:
             return z3.Or(*[self.equals(SV(e, ty.get(cont.t, i)), x, node) for i, e in enumerate(ty.elems)]) if ty.elems else z3.BoolVal(False)
         if ty is TStr and x.ty is TStr:
             return z3.Contains(cont.t, x.t)
+        if isinstance(ty, TOpaque) and f"{ty._n}.__contains__" in self.reg.contracts and not self.spec_mode:
+            return self.truth(self.call_contract_values(self.reg.contracts[f"{ty._n}.__contains__"], cont, [x], node))
         raise Unsupported(f"'in' on {ty}", node)
 
     # -- literals --------------------------------------------------------
